@@ -1,11 +1,271 @@
-import Tbx.Spec.IdTree
-import Tbx.Spec.HuffmanCode
+import Tbx.Proofs.ZigzagBij
+import Tbx.Proofs.PolylineRoundtrip
+import Tbx.Proofs.PolylineFormat
+import Tbx.Proofs.PartitionIDLaws
+import Tbx.Proofs.ChooseUnrank
+import Tbx.Proofs.HuffmanCodes
+import Tbx.Proofs.HuffmanFuel
+/-
+C20 — codes and identifiers: round trips hold and tree-id arithmetic is consistent.
+
+Property theorems only (helper lemmas live in Tbx/Proofs).  Registered in Tbx/Audit/C20.lean.
+Clauses not proved are written at full strength as `def …_statement : Prop` at the end.
+-/
 namespace Tbx.Props.C20
 open Tbx
+
+/-! ### zigzag (`math::zigzag_encode`) -/
+
+/-- `zigzag_bij`: the encoder of /repo and the standard decoder are inverse bijections of the 32-bit words -/
+theorem zigzag_bij :
+    (∀ v : BitVec 32, Spec.zigzagDecode (Zigzag.zigzagEncode v) = v) ∧
+    (∀ n : BitVec 32, Zigzag.zigzagEncode (Spec.zigzagDecode n) = n) :=
+  ⟨Proofs.Zigzag.decode_encode, Proofs.Zigzag.encode_decode⟩
+
+/-- the encoder is the arithmetic interleaving 0, -1, 1, -2, … ↦ 0, 1, 2, 3, … (what the judge checks) -/
+theorem zigzag_encode_arith (v : BitVec 32) : (Zigzag.zigzagEncode v).toNat = Spec.zigzagNat v.toInt :=
+  Proofs.Zigzag.encode_arith v
+
+example : Zigzag.zigzagEncodeInt (-2147483648) = 4294967295 ∧ Zigzag.zigzagEncodeInt (-2) = 3 ∧
+    Spec.zigzagDecode 3#32 = BitVec.ofInt 32 (-2) := by decide
+
+/-! ### polyline, integer layer -/
+
+/-- `polyline_int_roundtrip`: for every sequence (of any length) of rounded coordinates in the lat/lon range at
+    precision ≤ 6, `encode` does not overflow and `decode` of its output returns the sequence -/
+theorem polyline_int_roundtrip (xs : List (Int × Int)) (h : ∀ p ∈ xs, Polyline.InRange p) :
+    ∃ cs, Polyline.encodeInts xs = some cs ∧ Polyline.decodeInts cs = some xs :=
+  Proofs.Polyline.polyline_int_roundtrip xs h
+
+/-- conformance of the encoder with the format's own description (the function the judge applies to the real
+    encoder's output): what `encode` emits means the input sequence -/
+theorem polyline_encode_means (xs : List (Int × Int)) (h : ∀ p ∈ xs, Polyline.InRange p) :
+    ∃ cs, Polyline.encodeInts xs = some cs ∧ Spec.polylineMeaning cs = some xs :=
+  Proofs.Polyline.encode_means xs h
+
+/-- non-vacuity: Google's example at precision 5 and the extreme corners at precision 6 are in range and
+    encode to the documented string -/
+example : (∀ p ∈ [((3850000 : Int), (-12020000 : Int)), (4070000, -12095000), (4325200, -12645300)], Polyline.InRange p) ∧
+    (Polyline.encodeInts [(3850000, -12020000), (4070000, -12095000), (4325200, -12645300)]).map
+      (fun l => String.ofList (l.map Char.ofNat)) = some "_p~iF~ps|U_ulLnnqC_mqNvxq`@" := by
+  constructor
+  · decide
+  · decide +kernel
+example : ∀ p ∈ [((90000000 : Int), (180000000 : Int)), (-90000000, -180000000)], Polyline.InRange p := by decide
+
+/-! ### partition ids -/
+
+/-- a child's parent is the id (below bit 31, where the children exist) -/
+theorem parent_child (x : Nat) (h1 : 1 ≤ x) (h31 : x < 2 ^ 31) :
+    PartitionID.parent (PartitionID.leftChild x) = x ∧ PartitionID.parent (PartitionID.rightChild x) = x :=
+  ⟨Proofs.PartitionID.parent_leftChild x h1 h31, Proofs.PartitionID.parent_rightChild x h1 h31⟩
+
+example : PartitionID.parent (PartitionID.leftChild 12345) = 12345 ∧ PartitionID.parent (PartitionID.rightChild 2147483647) = 2147483647 ∧
+    PartitionID.parent (PartitionID.leftChild 2147483648) ≠ 2147483648 := by decide
+
+/-- levels grow by one -/
+theorem level_child (x : Nat) (h1 : 1 ≤ x) (h31 : x < 2 ^ 31) :
+    ∃ l, PartitionID.level x = some l ∧ PartitionID.level (PartitionID.leftChild x) = some (l + 1) ∧
+      PartitionID.level (PartitionID.rightChild x) = some (l + 1) :=
+  ⟨Nat.log2 x, Proofs.PartitionID.level_eq x h1 (by omega), Proofs.PartitionID.level_leftChild x h1 h31,
+    Proofs.PartitionID.level_rightChild x h1 h31⟩
+
+example : PartitionID.level 21845 = some 14 ∧ PartitionID.level (PartitionID.rightChild 21845) = some 15 ∧ PartitionID.level 0 = none := by
+  decide
+
+/-- `is_left_child` / `is_right_child` after the respective step (any id, also with bit 31 set), and they exclude
+    each other -/
+theorem child_sides (x : Nat) :
+    PartitionID.isLeftChild (PartitionID.leftChild x) = true ∧
+    PartitionID.isRightChild (PartitionID.rightChild x) = true ∧
+    PartitionID.isLeftChild x = !PartitionID.isRightChild x :=
+  ⟨Proofs.PartitionID.isLeftChild_leftChild x, Proofs.PartitionID.isRightChild_rightChild x,
+    Proofs.PartitionID.isLeft_xor_isRight x⟩
+
+/-- leftmost / rightmost descendant k levels down = k-fold left / right child (32-bit wrap included), no panic for k < 32 -/
+theorem descendants_kfold (x k : Nat) (hx : x < 2 ^ 32) (hk : k < 32) :
+    PartitionID.makeLeftmostDescendant x k = some (Proofs.PartitionID.kfold PartitionID.leftChild k x) ∧
+    PartitionID.makeRightmostDescendant x k = some (Proofs.PartitionID.kfold PartitionID.rightChild k x) :=
+  ⟨Proofs.PartitionID.makeLeftmostDescendant_eq x k hx hk, Proofs.PartitionID.makeRightmostDescendant_eq x k hx hk⟩
+
+example : PartitionID.makeRightmostDescendant 5 3 = some 47 ∧ Proofs.PartitionID.kfold PartitionID.rightChild 3 5 = 47 ∧
+    PartitionID.makeLeftmostDescendant 3221225472 2 = some 0 ∧ PartitionID.makeLeftmostDescendant 1 32 = none := by decide
+
+/-- …and these are the k-fold children `x·2^k`, `x·2^k + 2^k − 1` of the tree on the naturals, reduced to 32 bits -/
+theorem descendants_spec (x k : Nat) (hx : x < 2 ^ 32) (hk : k < 32) :
+    PartitionID.makeLeftmostDescendant x k = some (Spec.IdTree.leftK k x % 2 ^ 32) ∧
+    PartitionID.makeRightmostDescendant x k = some (Spec.IdTree.rightK k x % 2 ^ 32) := by
+  have hp : 0 < 2 ^ k := Nat.two_pow_pos k
+  have hroom := Proofs.PartitionID.mul_pow_mod_le x k (by omega)
+  have hU : PartitionID.U32 = 2 ^ 32 := rfl
+  constructor
+  · rw [Proofs.PartitionID.makeLeftmostDescendant_eq x k hx hk, Proofs.PartitionID.kfold_leftChild k x hx,
+      Proofs.PartitionID.leftK_eq, hU]
+  · rw [Proofs.PartitionID.makeRightmostDescendant_eq x k hx hk, Proofs.PartitionID.kfold_rightChild k x hx (by omega),
+      Proofs.PartitionID.rightK_eq, hU]
+    rw [hU] at hroom
+    have e : (x * 2 ^ k + (2 ^ k - 1)) % 2 ^ 32 = x * 2 ^ k % 2 ^ 32 + (2 ^ k - 1) := by
+      rw [Nat.add_mod, Nat.mod_eq_of_lt (show 2 ^ k - 1 < 2 ^ 32 by omega)]
+      exact Nat.mod_eq_of_lt (by omega)
+    rw [e]
+
+/-- `lca_deepest`: on non-zero 32-bit ids `lowest_common_ancestor` terminates without panic, its result is an
+    ancestor of both, and every common ancestor is an ancestor of it -/
+theorem lca_deepest (x y : Nat) (hx1 : 1 ≤ x) (hx : x < 2 ^ 32) (hy1 : 1 ≤ y) (hy : y < 2 ^ 32) :
+    ∃ a, PartitionID.lowestCommonAncestor x y = some a ∧ Spec.IdTree.IsLCA a x y :=
+  Proofs.PartitionID.lca_isLCA x y hx1 hx hy1 hy
+
+example : PartitionID.lowestCommonAncestor 8 5 = some 2 ∧ PartitionID.lowestCommonAncestor 4294967295 2147483648 = some 1 := by
+  decide
+
+/-- `parent_at_level` clears the low `l` bits (for levels up to the id's own), `extract_bit` reads a bit -/
+theorem masks (x l : Nat) (hl : l < 32) (hx : x < 2 ^ 32) (hpos : 1 ≤ x / 2 ^ l) :
+    PartitionID.parentAtLevel x l = some (x / 2 ^ l * 2 ^ l) ∧ PartitionID.extractBit x l = some (x.testBit l) :=
+  ⟨Proofs.PartitionID.parentAtLevel_eq x l hl hx hpos, Proofs.PartitionID.extractBit_eq x l hl⟩
+
+example : PartitionID.parentAtLevel 4294967295 9 = some 4294966784 ∧ PartitionID.extractBit 9 3 = some true ∧
+    PartitionID.parentAtLevel 1 1 = none := by decide
 
 /-- the judge's LCA checker is sound -/
 theorem judge_isLCA_sound (a x y : Nat) (hx : x < 2 ^ 64) (hy : y < 2 ^ 64)
     (h : Spec.IdTree.isLCAB a x y = true) : Spec.IdTree.IsLCA a x y :=
   Spec.IdTree.isLCAB_sound a x y hx hy h
+
+/-! ### binomial coefficients (`math::choose`, after D18) -/
+
+/-- `choose_eq`: for n ≤ 64 the loop returns the binomial coefficient (`Spec.binom` is Pascal's rule and equals
+    Mathlib's `Nat.choose`): no u128 overflow, and the final `as u64` is the identity -/
+theorem choose_eq (n k : Nat) (hn : n ≤ 64) :
+    Choose.choose n k = some (Spec.binom n k) ∧ Spec.binom n k = Nat.choose n k ∧ Spec.binom n k < 2 ^ 64 :=
+  ⟨Proofs.ChooseUnrank.choose_eq n k hn, Proofs.ChooseUnrank.binom_eq_choose n k,
+    Proofs.ChooseUnrank.binom_lt_two_pow_64 n k hn⟩
+
+example : Choose.choose 37 17 = some 15905368710 ∧ Choose.choose 5 7 = some 0 := by decide +kernel
+
+/-- every intermediate product is below 2^128, equals `binom n (i-1) · (n-i+1)`, and is divided exactly -/
+theorem choose_intermediates (n k : Nat) (hn : n ≤ 64) (hk : k ≤ n) :
+    ∀ ip ∈ Choose.trace n (Choose.reduceK n k) 1 1,
+      ip.2 < 2 ^ 128 ∧ ip.2 = Spec.binom n (ip.1 - 1) * (n - ip.1 + 1) ∧ ip.1 ∣ ip.2 ∧ 1 ≤ ip.1 ∧
+        ip.1 ≤ Choose.reduceK n k :=
+  Proofs.ChooseUnrank.choose_intermediates n k hn hk
+
+/-- D18: the pre-fix loop (u64 intermediate) fails on the witness, the current one does not -/
+theorem d18_witness : Choose.chooseLegacy 64 32 = none ∧ Choose.choose 64 32 = some 1832624140942590534 :=
+  Proofs.ChooseUnrank.legacy_overflows
+
+example : (Choose.trace 64 (Choose.reduceK 64 32) 1 1).length = 32 := by decide +kernel
+
+/-! ### fixed-weight words (`decode_u64`, `U64BitWeightIterator`) -/
+
+/-- `decode_u64_unrank`: for w ≤ 64 and ordinal < C(64,w) the code does not panic, the result is a 64-bit word
+    of weight w, strictly increasing in the ordinal, and every 64-bit word of weight w is hit (by its rank):
+    a monotone bijection onto the weight-w words -/
+theorem decode_u64_unrank (w : Nat) (hw : w ≤ 64) :
+    (∀ ord, ord < Spec.binom 64 w →
+      ∃ x, Enumerative.decodeU64 w ord = some x ∧ x < 2 ^ 64 ∧ Spec.popcount 64 x = w ∧ Spec.rank 64 x = ord) ∧
+    (∀ o1 o2 x1 x2, o1 < o2 → o2 < Spec.binom 64 w →
+      Enumerative.decodeU64 w o1 = some x1 → Enumerative.decodeU64 w o2 = some x2 → x1 < x2) ∧
+    (∀ x, x < 2 ^ 64 → Spec.popcount 64 x = w →
+      Spec.rank 64 x < Spec.binom 64 w ∧ Enumerative.decodeU64 w (Spec.rank 64 x) = some x) := by
+  refine ⟨?_, ?_, ?_⟩
+  · intro ord h
+    exact ⟨_, Proofs.ChooseUnrank.decodeU64_eq w ord hw h, Proofs.ChooseUnrank.unrank_lt 64 w ord h,
+      Proofs.ChooseUnrank.unrank_popcount 64 w ord h, Proofs.ChooseUnrank.rank_unrank 64 w ord h⟩
+  · intro o1 o2 x1 x2 h12 h2 e1 e2
+    rw [Proofs.ChooseUnrank.decodeU64_eq w o1 hw (by omega)] at e1
+    rw [Proofs.ChooseUnrank.decodeU64_eq w o2 hw h2] at e2
+    cases e1; cases e2
+    exact Proofs.ChooseUnrank.unrank_strictMono 64 w o1 o2 h12 h2
+  · intro x hx hp
+    have := Proofs.ChooseUnrank.unrank_rank 64 x hx
+    rw [hp] at this
+    exact ⟨this.1, by rw [Proofs.ChooseUnrank.decodeU64_eq w _ hw this.1, this.2]⟩
+
+example : Enumerative.decodeU64 3 21 = some 69 ∧ 21 < Spec.binom 64 3 := by decide +kernel
+
+/-- the bit-weight iterator yields the words of weight w in increasing order (`unrank 0, unrank 1, …`) and ends
+    exactly after C(64,w) items -/
+theorem bwiter_enumerates (w cnt : Nat) (hw : w ≤ 64) :
+    (Enumerative.withWeight w).bind (Enumerative.take cnt) =
+      some ((List.range (min cnt (Spec.binom 64 w))).map (Spec.unrank 64 w)) :=
+  Proofs.ChooseUnrank.bwiter_enumerates w cnt hw
+
+example : (Enumerative.withWeight 63).bind (Enumerative.take 2) = some [9223372036854775807, 13835058055282163711] := by
+  decide +kernel
+
+/-- the judge's Pascal table and rank function are the Spec's -/
+theorem judge_tables_sound (n : Nat) : Spec.pascalRow n = (List.range (n + 1)).map (Spec.binom n) :=
+  Proofs.ChooseUnrank.pascalRow_eq n
+
+/-! ### Huffman -/
+
+/-- `codes_prefix_free`, both constructions: whatever they return is a prefix-free code -/
+theorem codes_prefix_free (v : List (Nat × Int)) (book : Huffman.Book)
+    (h : Huffman.fromSorted v = some book ∨ Huffman.fromUnsorted v = some book) :
+    Spec.Huff.PrefixFree (book.map (·.2)) := by
+  rcases h with h | h
+  · exact Huffman.fromSorted_prefix_free v book h
+  · exact Huffman.fromUnsorted_prefix_free v book h
+
+example : Huffman.fromSorted [(0, 1), (1, 1), (2, 2), (3, 2)] =
+      some [(2, [true, true]), (1, [true, false, true]), (0, [true, false, false]), (3, [false])] ∧
+    Spec.Huff.prefixFreeB [[true, true], [true, false, true], [true, false, false], [false]] = true ∧
+    Spec.Huff.prefixFreeB [[true], [true, false]] = false := by decide
+
+/-- `all_symbols_coded`, two-queue construction: no panic unless the table has exactly one symbol, and every
+    symbol gets exactly one code word -/
+theorem all_symbols_coded_sorted (v : List (Nat × Int)) (hv : v.length ≠ 1) :
+    ∃ book, Huffman.fromSorted v = some book ∧ (book.map (·.1)).Perm (v.map (·.1)) :=
+  Huffman.fromSorted_all_coded v hv
+
+/-- `all_symbols_coded`, heap construction: every table -/
+theorem all_symbols_coded_unsorted (v : List (Nat × Int)) :
+    ∃ book, Huffman.fromUnsorted v = some book ∧ (book.map (·.1)).Perm (v.map (·.1)) :=
+  Huffman.fromUnsorted_all_coded v
+
+/-- the documented non-defect: the two-queue construction panics on a one-symbol table -/
+example : Huffman.fromSorted [(7, 3)] = none ∧ Huffman.fromUnsorted [(7, 3)] = some [(7, [])] := by decide
+
+/-- the only fuelled loops of C20 that do not answer `none` on exhaustion (the heap's sift loops) never stop
+    early: any larger fuel gives the same arrays -/
+theorem heap_fuel_sufficient (a : Array Huffman.Tree) (x : Huffman.Tree) (pos extra : Nat) (hpos : pos < a.size) :
+    Huffman.siftUp 0 (a.size + 1 + extra) (a.push x) a.size = Huffman.heapPush a x ∧
+    Huffman.siftUp pos (a.size + extra) (Huffman.siftDownLoop a.size (a.size + extra) a pos).1
+      (Huffman.siftDownLoop a.size (a.size + extra) a pos).2 = Huffman.siftDownToBottom a pos := by
+  constructor
+  · exact Huffman.siftUp_fuel 0 _ _ _ _ (by omega) (by omega)
+  · unfold Huffman.siftDownToBottom
+    rw [Huffman.siftDownLoop_fuel a.size (a.size + extra) a.size a pos (by omega) (by omega)]
+    have := Huffman.siftDownLoop_pos a.size a.size a pos hpos
+    exact Huffman.siftUp_fuel pos _ _ _ _ (by omega) (by omega)
+
+/-- the judge's prefix-freeness checker is exact -/
+theorem judge_prefixFree_sound (cs : List Spec.Huff.Code) : Spec.Huff.prefixFreeB cs = true ↔ Spec.Huff.PrefixFree cs :=
+  Spec.Huff.prefixFreeB_iff cs
+
+/-! ### stated, not proved (P2): optimality -/
+
+/-- `huffman_minimal`: the code book of either construction has minimal weighted length among all prefix-free
+    codes for the table (positive frequencies, distinct symbols; sorted input for the two-queue construction) -/
+def huffman_minimal_statement : Prop :=
+  ∀ (v : List (Nat × Int)) (book : Huffman.Book), (∀ e ∈ v, 1 ≤ e.2) → (v.map (·.1)).Nodup →
+    (Huffman.fromUnsorted v = some book ∨ (v.Pairwise (fun a b => a.2 ≤ b.2) ∧ Huffman.fromSorted v = some book)) →
+    ∀ book' : Huffman.Book, (book'.map (·.1)).Perm (v.map (·.1)) → Spec.Huff.PrefixFree (book'.map (·.2)) →
+      Spec.Huff.cost v book ≤ Spec.Huff.cost v book'
+
+/-- `two_queue_eq_heap_cost`: on a sorted table both constructions reach the same weighted length -/
+def two_queue_eq_heap_cost_statement : Prop :=
+  ∀ (v : List (Nat × Int)) (bs bu : Huffman.Book), (∀ e ∈ v, 1 ≤ e.2) → (v.map (·.1)).Nodup →
+    v.Pairwise (fun a b => a.2 ≤ b.2) → Huffman.fromSorted v = some bs → Huffman.fromUnsorted v = some bu →
+    Spec.Huff.cost v bs = Spec.Huff.cost v bu
+
+/-- the judge's reference optimum (repeated merge of the two smallest weights) is the minimum over all
+    prefix-free codes; until this is proved the judge's cost comparison is bounded evidence only -/
+def greedy_cost_optimal_statement : Prop :=
+  ∀ (v : List (Nat × Int)), 2 ≤ v.length → (∀ e ∈ v, 1 ≤ e.2) → (v.map (·.1)).Nodup →
+    (∀ book' : Huffman.Book, (book'.map (·.1)).Perm (v.map (·.1)) → Spec.Huff.PrefixFree (book'.map (·.2)) →
+      Spec.Huff.optCost (v.map (·.2)) ≤ Spec.Huff.cost v book') ∧
+    (∃ book' : Huffman.Book, (book'.map (·.1)).Perm (v.map (·.1)) ∧ Spec.Huff.PrefixFree (book'.map (·.2)) ∧
+      Spec.Huff.cost v book' = Spec.Huff.optCost (v.map (·.2)))
 
 end Tbx.Props.C20
